@@ -5,7 +5,7 @@ import warnings
 from datetime import datetime, timezone
 
 from vf.core import Ctx
-from vf.tlc import MachineryError, Raw
+from vf.tlc import MachineryError
 
 from drivers import _httpgate_util as U
 
@@ -34,11 +34,6 @@ HEADER = {
 }
 # documented per-response headers of the VGI- family (docs/WIRE_PROTOCOL.md "Response headers")
 NOT_CAPABILITY = ("vgi-auth-reason", "vgi-auth-proxy-required", "vgi-session", "vgi-session-close")
-ROUTES_QUICK = ["probe", "head_health", "get_health", "unary_ok", "unary_err", "unauth", "unknown_method", "too_large"]
-ROUTES_ALL = ROUTES_QUICK + ["options_health", "not_found_page", "bad_ce", "bad_request", "bad_ct", "init", "exchange",
-                             "method_not_allowed", "options_rpc", "landing", "introspect_route", "session_delete",
-                             "upload_url", "exchange_bad"]
-
 
 class _Storage:
     def upload(self, data, schema, *, content_encoding=None):
@@ -151,15 +146,16 @@ def run(ctx: Ctx) -> None:
     logging.disable(logging.CRITICAL)
     from vgi_rpc.external import ExternalLocationConfig
 
-    routes = ROUTES_QUICK if ctx.quick else ROUTES_ALL
-    consts = {"Routes": Raw("{" + ", ".join(f'"{r}"' for r in routes) + "}"), "Slice": "quick" if ctx.quick else "full"}
+    consts = {"Slice": "quick" if ctx.quick else "full"}
     invs = ["AlwaysTwo", "RouteIndependent", "UploadBytesNeedsProvider", "StickyFamily", "EmittedOnlyFromTable",
             "ApplicableCase"]
     cases = U.enumerate_split(ctx, "httpgate", "Caps", constants=consts, invariants=invs)
     ctx.exhaustive = True
     ctx.rule = ("case = (configuration vector of 12 switches, route kind), all enumerated by TLC from Caps!Cases; one "
                 "real app per configuration; non-trivial = distinct (configuration, concrete values, route) requests "
-                "executed. Capability table = docs/WIRE_PROTOCOL.md 'Capability discovery'.")
+                "executed; responses of one configuration with identical capability headers are judged by TLC as one "
+                "observation that lists the route kinds it stands for. Capability table = docs/WIRE_PROTOCOL.md "
+                "'Capability discovery'.")
     ctx.assume("concrete limits are drawn per configuration (including 0, 2^31, 2^53-1); TTLs are integral seconds",
                "VGI-Auth-Reason, VGI-Auth-Proxy-Required, VGI-Session, VGI-Session-Close, VGI-Echo-* are per-response "
                "headers, every other VGI-* response header counts as a capability header",
@@ -169,9 +165,6 @@ def run(ctx: Ctx) -> None:
     servers = {"none": U.build_server()[0],
                "nostorage": U.build_server(external_location=ExternalLocationConfig())[0],
                "storage": U.build_server(external_location=ExternalLocationConfig(storage=_Storage()))[0]}
-    by_cfg: dict = {}
-    for cj in cases:
-        by_cfg.setdefault(U._json.dumps(cj["case"]["cfg"], sort_keys=True), []).append(cj)
     obs: list[dict] = []
 
     def flush():
@@ -182,24 +175,28 @@ def run(ctx: Ctx) -> None:
                             constants=consts)
         for idx, clauses in bad:
             o = obs[idx]
+            cfg = o["case"]["cfg"]
             for cl in clauses:
-                ctx.violation(cl, {"route": o["case"]["route"], "status": o["obs"]["status"],
-                                   "config": "".join(k for k, v in sorted(o["case"]["cfg"].items()) if v is True)
-                                   + f"|ext={o['case']['cfg']['ext']}|comp={o['case']['cfg']['comp']}"},
-                              {"case": o["case"], "observed": o["obs"]})
+                for route, st in zip(o["obs"]["routes"], o["_st"]):
+                    ctx.violation(cl, {"route": route, "status": st,
+                                       "config": "".join(k for k, v in sorted(cfg.items()) if v is True)
+                                       + f"|ext={cfg['ext']}|comp={cfg['comp']}"},
+                                  {"case": o["case"], "observed": o["obs"]})
         obs = []
 
     good = {"Content-Type": U.ARROW_CT, "Authorization": "Bearer ok"}
-    for key, group in by_cfg.items():
-        cfg = group[0]["case"]["cfg"]
+    for cj in cases:
+        case = cj["case"]
+        cfg = case["cfg"]
+        key = U._json.dumps(cfg, sort_keys=True)
         vals = draw_vals(ctx.rng)
         app = build(cfg, vals, servers)
         server = servers[cfg["ext"]]
         svals = {"maxReq": str(vals["maxReq"]), "maxResp": str(vals["maxResp"]), "maxExt": str(vals["maxExt"]),
                  "maxUpload": str(vals["maxUpload"]), "ttl": str(vals["ttl"]), "echo": list(vals["echo"])}
         tokens = None
-        for cj in group:
-            route = cj["case"]["route"]
+        groups: dict = {}
+        for route in case["routes"]:
             pr = EMPTY_PROBE
             if route == "probe":
                 pr = probe(app)
@@ -257,15 +254,22 @@ def run(ctx: Ctx) -> None:
             else:
                 raise MachineryError(f"route kind {route} not concretised")
             h, unknown = headers_obs(hd)
-            o = {"status": st, "vals": svals, "h": h, "unknown": unknown, "probe": pr}
-            obs.append({"case": cj["case"], "obs": o})
+            gkey = "probe" if route == "probe" else U._json.dumps([h, unknown], sort_keys=True)
+            g = groups.get(gkey)
+            if g is None:
+                g = groups[gkey] = {"case": case, "_st": [],
+                                    "obs": {"route": route, "routes": [], "vals": svals, "h": h, "unknown": unknown,
+                                            "probe": pr}}
+            g["obs"]["routes"].append(route)
+            g["_st"].append(st)
             ctx.case([key, svals, route])
             if len(ctx.samples) < 5 and ctx.rng.random() < 0.0005:
                 ctx.sample({"config": cfg, "values": svals, "route": route, "status": st,
                             "capability_headers": {HEADER[k]: v["v"] for k, v in h.items() if v["n"]}, "probe": pr})
+        obs.extend(groups.values())
         U.dispose_app(app)
-        if len(obs) >= 60000:
+        if len(obs) >= 40000:
             flush()
     flush()
-    ctx.extra["configurations"] = len(by_cfg)
-    ctx.extra["routes"] = routes
+    ctx.extra["configurations"] = len(cases)
+    ctx.extra["routes"] = sorted({r for cj in cases for r in cj["case"]["routes"]})
